@@ -46,6 +46,9 @@ H = {
                                        sc("sketch_cms", {**CMS, "item_kind": "frozenset"}, 1, hs=[1])),
     "sketch-frozenset-item-repr-bloom-hll": ("C03/sketch_others:all-frozenset/stat:*/hashseed",
                                              sc("sketch_others", {**CMS, "rate": 300.0, "item_kind": "frozenset"}, 5, hs=[1, 4242])),
+    "parallel-same-instant-order-follows-thread-completion": ("C03/parallel_links:ties*/*/completion-order",
+        sc("parallel_links", {"senders": 2, "receivers": 1, "rate": 50.0, "loss": 0.3, "latency": None, "window": None, "horizon": 0.3,
+                              "ack": False, "ties": True}, 1)),
     "ttleviction-default-wall-clock": ("C03/ttl_cache_server:default/*/wall-clock",
                                         sc("ttl_cache_server", {"clock": "default", "rate": 150.0, "customers": 20, "cap": 8, "horizon": 1.0}, 1,
                                            wall=["fast"])),
